@@ -14,9 +14,10 @@ import pkg_resources
 
 from rig.machine_control import scp_connection, machine_controller
 from rig.machine_control.machine_controller import MachineController
+from rig.machine_control.struct_file import read_struct_file
 from rig.links import Links
 
-from ..env.spinnaker_sim import SimMachine, SDRAM_BASE
+from ..env.spinnaker_sim import SimMachine, SDRAM_BASE, SYSRAM_BASE
 from ..env.simnet import SimNet
 
 STRUCT_TEXT = pkg_resources.resource_string("rig", "boot/sark.struct").decode()
@@ -31,12 +32,15 @@ def halves(a):
 class Session(object):
     """one simulated machine + controller + the trace being recorded"""
 
-    def __init__(self, rng, bufsize, window, fate=None, w=2, h=2, told=True):
+    def __init__(self, rng, bufsize, window, fate=None, w=2, h=2, told=True, struct_text=None):
         self.rng = rng
-        self.sim = SimMachine(w, h, STRUCT_TEXT, buffer_size=bufsize, legacy_version=True, name="SCMP")
+        self.sim = SimMachine(w, h, struct_text or STRUCT_TEXT, buffer_size=bufsize, legacy_version=True, name="SCMP")
         self.net = SimNet(self.sim, fate)
         self.net.install(scp_connection, machine_controller)
-        self.mc = MachineController("sim", n_tries=6)
+        if struct_text is None:
+            self.mc = MachineController("sim", n_tries=6)
+        else:                                       # the caller's own struct file (the documented `structs` parameter)
+            self.mc = MachineController("sim", n_tries=6, structs=read_struct_file(struct_text.encode()))
         if told:                                    # (otherwise the controller has to ask the machine itself)
             self.mc._scp_data_length = bufsize      # what the machine advertises through sver
         self.mc._window_size = window
@@ -112,23 +116,25 @@ def faults(rng, rate):
     return fate
 
 
-def rw_session(rng, bufsize, window, base_off, lengths, fate, label):
+def rw_session(rng, bufsize, window, base_off, lengths, fate, label, origin=SDRAM_BASE + 0x100, shapes=(bytes,)):
+    """origin: where the observed window starts (the transfers start 4..11 bytes above it); shapes: the types the
+    data of a write is handed over as"""
     s = Session(rng, bufsize, window, fate)
     try:
         chip = (1, 0)
-        origin = SDRAM_BASE + 0x100
         size = max(lengths) + 16 + 8
         s.watch(chip, origin, size)
         s.watch((0, 1), origin, 16)                      # another chip: must stay untouched
         for n in lengths:
             a = origin + 4 + base_off
             data = bytes(rng.randrange(256) for _ in range(n))
+            given = (rng.choice(shapes) if len(shapes) > 1 else shapes[0])(data)
             if rng.random() < 0.5:
-                s.op("write", chip, halves(a), n, data, lambda: s.mc.write(a, data, chip[0], chip[1]))
+                s.op("write", chip, halves(a), n, data, lambda: s.mc.write(a, given, chip[0], chip[1]))
             else:
                 conn = s.mc.connections[None]
                 s.op("write", chip, halves(a), n, data,
-                     lambda: conn.write(bufsize, window, chip[0], chip[1], 0, a, data))
+                     lambda: conn.write(bufsize, window, chip[0], chip[1], 0, a, given))
             if rng.random() < 0.5:
                 s.op("read", chip, halves(a), n, None, lambda: s.mc.read(a, n, chip[0], chip[1]))
             else:
@@ -209,6 +215,11 @@ def misc_session(rng, bufsize, window, fate, label):
             if len(raw) <= cnt:
                 s.op("swrite", chip, addr, cnt, list(bytearray(raw.ljust(cnt, b"\0"))),
                      lambda: s.mc.write_vcpu_struct_field("app_name", text, chip[0], chip[1], p))
+                # ... and read back: the text returned is the stored bytes without the padding (recorded as the
+                # field's bytes again: the names written here neither start nor end with a NUL)
+                s.op("sread", chip, addr, cnt, None,
+                     lambda: list(bytearray(s.mc.read_vcpu_struct_field("app_name", chip[0], chip[1], p)
+                                            .encode("utf-8").ljust(cnt, b"\0"))))
             else:
                 s.op("sconf", chip, addr, cnt, [],
                      lambda: s.mc.write_vcpu_struct_field("app_name", text, chip[0], chip[1], p))
@@ -253,6 +264,10 @@ def core_local_session(rng, bufsize, window, fate, label):
             a4 = origin + 4 * rng.randrange(3)
             s.op("fillw", chip, halves(a4), 8, list(struct.pack("<I", 0x0a0b0c0d) * 2),
                  lambda: s.mc.fill(a4, 0x0a0b0c0d, 8, xy[0], xy[1], core))
+            # a fill that is not whole words (address or size) is done byte-wise
+            au, nu = rng.choice(((origin + 1, 4), (origin + 4, 3), (origin + 6, bufsize + 1), (origin + 3, 2 * bufsize)))
+            b = rng.randrange(1, 256)
+            s.op("fillb", chip, halves(au), nu, [b] * nu, lambda: s.mc.fill(au, b, nu, xy[0], xy[1], core))
         return s.trace(label)
     finally:
         s.close()
@@ -261,12 +276,12 @@ def core_local_session(rng, bufsize, window, fate, label):
 def first_op_session(rng, bufsize, window, fate, kind, label):
     """a fresh controller whose very first memory operation is `kind` (nothing has asked the machine for its buffer
     size yet), longer than the buffer"""
-    s = Session(rng, bufsize, window, fate, w=3, h=2, told=False)
+    s = Session(rng, bufsize, window, fate, w=3, h=3, told=False)     # (3 x 3: every link leads to a different chip)
     try:
-        chip = (rng.randrange(3), rng.randrange(2))
+        chip = (rng.randrange(3), rng.randrange(3))
         link = Links(rng.randrange(6))
         dx, dy = link.to_vector()
-        nb = ((chip[0] + dx) % 3, (chip[1] + dy) % 2)
+        nb = ((chip[0] + dx) % 3, (chip[1] + dy) % 3)
         origin = SDRAM_BASE + 0x800
         n = 4 * ((bufsize // 4) * 2 + rng.randrange(1, 4))
         s.watch(nb, origin, n + 24)
@@ -286,6 +301,97 @@ def first_op_session(rng, bufsize, window, fate, kind, label):
         ops[kind]()
         for k in rng.sample(sorted(ops), 2):
             ops[k]()
+        return s.trace(label)
+    finally:
+        s.close()
+
+
+def custom_struct_text():
+    """A struct file of the caller's own (handed to the controller through its `structs` parameter, and to the
+    simulated machine, whose layout follows it): the sv block at another base, per-core blocks of another size with
+    every field moved, and a struct `app` living in each core's own data memory with signed bytes, half-word and word
+    arrays, and offsets written in decimal."""
+    out, cur = [], None
+    for line in STRUCT_TEXT.splitlines():
+        body = line.split("#")[0].split()
+        if len(body) == 3 and body[0] == "name":
+            cur = body[2]
+        elif len(body) == 3 and body[0] == "base" and cur == "sv":
+            line = "base = 0xf5007d00"
+        elif len(body) == 3 and body[0] == "size" and cur == "vcpu":
+            line = "size = 176"
+        elif len(body) == 5 and cur == "vcpu":
+            line = "%s %s 0x%02x %s %s" % (body[0], body[1], int(body[2], 0) + 0x24, body[3], body[4])
+        out.append(line)
+    out += ["", "name = app", "size = 72", "base = 0x00400240", "",
+            "flag      c  0x00  %d    0",
+            "delta     c  1     %d    0",
+            "level     v  0x02  %04x  0",
+            "gains[3]  v  4     %04x  0",
+            "steps[2]  c  10    %d    0",
+            "count     V  0x0c  %08x  0",
+            "table[5]  V  16    %08x  0",
+            "trim      c  36    %d    0",
+            "last      V  0x44  %08x  0", ""]
+    return "\n".join(out)
+
+
+def custom_struct_session(rng, bufsize, window, fate, label):
+    """struct and per-core field accesses of a controller given its own struct file (see custom_struct_text): field
+    address = that file's base + offset; per-core field = block base + core x that file's block size + offset; a
+    struct in a core's own memory is read / written in the memory of the core named in the call"""
+    s = Session(rng, bufsize, window, fate, w=2, h=2, struct_text=custom_struct_text())
+    try:
+        sim = s.sim
+        xy = (rng.randrange(2), rng.randrange(2))
+
+        def values(pack, cnt):
+            size = PACK_SIZE[pack]
+            vals = [rng.choice((0, 256 ** size - 1, rng.randrange(256 ** size))) if pack.isupper() or pack == "v" else
+                    rng.choice((-1, -(256 ** size) // 2, (256 ** size) // 2 - 1, rng.randrange(-100, 100)))
+                    for _ in range(cnt)]
+            return vals if cnt > 1 else vals[0]
+        # the struct in each core's own data memory
+        app = sim.structs["app"]
+        cores = sorted({0, rng.randrange(1, 16), rng.choice((16, 17))})
+        for core in cores:
+            s.watch((xy[0], xy[1], core) if core else xy, app["base"] - 8, app["size"] + 16)
+        for name in rng.sample(sorted(app["fields"]), 6):
+            off, pack, cnt = app["fields"][name]
+            nbytes = PACK_SIZE[pack] * cnt
+            addr = [halves(app["base"]), off, 0, 0]
+            for core in rng.sample(cores, 2):
+                chip = (xy[0], xy[1], core) if core else xy
+                v = values(pack, cnt)
+                s.op("swrite", chip, addr, nbytes, _packed(v, pack, cnt),
+                     lambda: s.mc.write_struct_field("app", name, v, xy[0], xy[1], core))
+                s.op("sread", chip, addr, nbytes, None,
+                     lambda: _packed(s.mc.read_struct_field("app", name, xy[0], xy[1], core), pack, cnt))
+        # sv fields at the file's base
+        sv = sim.sv
+        s.watch(xy, sv["base"], sv["size"])
+        for name in rng.sample(sorted(n for n, f in sv["fields"].items() if f[1] in PACK_SIZE and n not in (
+                "vcpu_base", "sdram_sys", "rtr_copy", "alloc_tag", "p2p_dims", "iobuf_size")), 3):
+            off, pack, cnt = sv["fields"][name]
+            addr = [halves(sv["base"]), off, 0, 0]
+            v = values(pack, cnt)
+            s.op("swrite", xy, addr, PACK_SIZE[pack] * cnt, _packed(v, pack, cnt),
+                 lambda: s.mc.write_struct_field("sv", name, v, xy[0], xy[1]))
+            s.op("sread", xy, addr, PACK_SIZE[pack] * cnt, None,
+                 lambda: _packed(s.mc.read_struct_field("sv", name, xy[0], xy[1]), pack, cnt))
+        # per-core fields in blocks of the file's size
+        vc = sim.vcpu
+        vbase = sim.chips[xy].vcpu_base
+        s.watch(xy, vbase, vc["size"] * 18)
+        for name in rng.sample(sorted(n for n, f in vc["fields"].items() if f[1] in PACK_SIZE and f[2] == 1), 4):
+            off, pack, cnt = vc["fields"][name]
+            p = rng.choice((1, 2, rng.randrange(18), 17))
+            addr = [halves(vbase), off, p, vc["size"], halves(sim.sv_addr("vcpu_base"))]
+            v = values(pack, 1)
+            s.op("swrite", xy, addr, PACK_SIZE[pack], _packed(v, pack, 1),
+                 lambda: s.mc.write_vcpu_struct_field(name, v, xy[0], xy[1], p))
+            s.op("sread", xy, addr, PACK_SIZE[pack], None,
+                 lambda: _packed(s.mc.read_vcpu_struct_field(name, xy[0], xy[1], p), pack, 1))
         return s.trace(label)
     finally:
         s.close()
@@ -330,6 +436,20 @@ def run(chk):
         n = rng.choice((1000, 1023, 1024, 2049, 4096 + rng.randrange(7)))
         traces.append(rw_session(rng, B, rng.randint(1, 8), rng.randrange(4), [n], faults(rng, rng.choice((0, 0.05))),
                                  "large B=%d n=%d" % (B, n)))
+    # other places in the address space (a transfer running across a 64 KiB boundary; the top half of the address
+    # space: system RAM), the data of a write handed over as bytes / bytearray / memoryview
+    for origin in chk.pick((SDRAM_BASE + 0x2fff0 - 300, SYSRAM_BASE + 0x100),
+                           (SDRAM_BASE + 0x2fff0 - 300, SDRAM_BASE + 0xfff0, SYSRAM_BASE + 0x100, SYSRAM_BASE + 0xfc0)):
+        for B in chk.pick((16, 255), (7, 16, 64, 255, 256)):
+            lengths = sorted({0, 1, rng.randrange(2, B), B, B + 1, 2 * B + rng.randrange(4), 300 + rng.randrange(8), 700})
+            traces.append(rw_session(rng, B, rng.randint(1, 4), rng.randrange(8), lengths,
+                                     faults(rng, rng.choice((0, 0.05))), "elsewhere origin=%#x B=%d" % (origin, B),
+                                     origin=origin, shapes=(bytes, bytearray, memoryview)))
+    # a controller given a struct file of its own
+    for i in range(chk.pick(8, 200)):
+        B = rng.choice((8, 16, 255, 256))
+        traces.append(custom_struct_session(rng, B, rng.randint(1, 4), faults(rng, rng.choice((0, 0, 0.05))),
+                                            "own struct file B=%d" % B))
     for i in range(chk.pick(60, 3000)):
         B = rng.choice((4, 7, 8, 16, 255, 256))
         rate = rng.choice((0, 0, 0.05, 0.15))
@@ -346,7 +466,11 @@ def run(chk):
     chk.count("client-level operations judged", nop)
     chk.rule = ("read / write through MachineController and SCPConnection for every start alignment 0..7 x every "
                 "length 0..3B+3 x buffer sizes %s x window sizes, large transfers, fills (word / byte), sv struct "
-                "fields, per-core fields, link reads / writes, with 0-15%% of datagrams lost / duplicated / delivered "
+                "fields, per-core fields (numbers; the application name written and read back), fields of a struct file "
+                "of the caller's own (another base, another per-core block size, a struct in each core's own memory, "
+                "signed and array fields), byte-wise fills of a core's own memory, transfers across a 64 KiB boundary "
+                "and in system RAM with the data given as bytes / bytearray / memoryview, link reads / writes (every "
+                "link to a different chip in the first-operation sessions), with 0-15%% of datagrams lost / duplicated / delivered "
                 "late; non-trivial = non-empty transfer; distinct = distinct (buffer, kind, address, length, session)"
                 % (list(bufs),))
     chk.exhaustive = False
